@@ -22,7 +22,6 @@ type lockState struct {
 	on         bool
 }
 
-
 func (e *Engine) markShared(v Value, t types.Type, path string) {
 	if t == nil {
 		return
